@@ -1043,6 +1043,14 @@ def replay_m(path):
     d = json.load(open(path))
     if d.get('kind') == 'eval_impl':
         return replay_eval_impl(path)
+    if d.get('kind') == 'compare':
+        err = build_tool('render')
+        inp = '\n'.join(json.dumps(q) for q, _ in d['requests']) + '\n'
+        p = subprocess.run([os.path.join(BUILD, 'native', 'debug', 'render')], input=inp, stdout=subprocess.PIPE, stderr=subprocess.PIPE, text=True, timeout=120)
+        outs = [json.loads(l) for l in p.stdout.split('\n') if l.strip()]
+        bad = [(q['src'][:80], o.get('ok', o), w) for (q, w), o in zip(d['requests'], outs) if o.get('ok') != w]
+        print(json.dumps(bad, indent=1))
+        return bool(bad)
     if d.get('kind') == 'safesrc':
         err = build_tool('render')
         inp = '\n'.join(json.dumps(q) for q, _ in d['requests']) + '\n'
@@ -1598,6 +1606,183 @@ def check_binop_arms(fn, variants, table=None):
             res.update(verdict=str(r))
         out.append(res)
     return out
+
+
+# ---------------------------------------------------------------------------------------------
+# comparisons (C03): each comparison instruction, and each operator of the chained-comparison instruction
+# CompareAndPreserve, reaches the next instruction through exactly one call of ITS comparison on Value
+# ---------------------------------------------------------------------------------------------
+CMP_CALLEE = {'Eq': r'<value::Value as PartialEq>::eq\(', 'Ne': r'<value::Value as PartialEq>::ne\(',
+              'Lt': r'<value::Value as PartialOrd>::lt\(', 'Lte': r'<value::Value as PartialOrd>::le\(',
+              'Gt': r'<value::Value as PartialOrd>::gt\(', 'Gte': r'<value::Value as PartialOrd>::ge\('}
+ANY_CMP = r'<value::Value as Partial(?:Eq|Ord)>::(?:eq|ne|lt|le|gt|ge)\('
+
+
+def compare_op_variants(repo):
+    src = open(os.path.join(repo, 'minijinja', 'src', 'compiler', 'instructions.rs'), encoding='utf-8').read()
+    m = re.search(r'pub enum CompareOp \{(.*?)\n\}', src, re.S)
+    if not m:
+        raise MirError('enum CompareOp not found')
+    return re.findall(r'^\s{4}([A-Z]\w*)', re.sub(r'\s*///[^\n]*', '', m.group(1)), re.M)
+
+
+def check_compare_arms(fn, variants, cmp_variants):
+    adj, preds = cfg(fn)
+    fetch = [b for b, blk in fn['blocks'].items() if not blk['cleanup'] and re.search(r"Instructions::<[^>]*>::get\(", blk['term'])]
+    dispatch = [b for b, blk in fn['blocks'].items() if not blk['cleanup'] and blk['term'].startswith('switchInt') and blk['term'].count('bb') >= 40]
+    if len(fetch) != 1 or len(dispatch) != 1:
+        return [dict(op='*', verdict='unknown', conflict='fetch/dispatch blocks of the interpreter loop not identified')]
+    F, X = fetch[0], dispatch[0]
+    targets = dict(re.findall(r'(\d+): (bb\d+)', fn['blocks'][X]['term']))
+    der, _ = derive_map(fn)
+
+    def query(name, entry, want_rx, prune):
+        s_ = z3.Solver()
+        s_.set('timeout', 30000)
+        D = {}
+
+        def d(b):
+            if b not in D:
+                D[b] = z3.Int('C_%s_%s' % (name, b))
+            return D[b]
+        s_.add(d(entry) == 0)
+        seen, todo = {entry}, [entry]
+        n = calls = other = reach = 0
+        while todo:
+            b = todo.pop()
+            blk = fn['blocks'][b]
+            if any(re.match(r'_0 = ', st) for st in blk['stmts']):
+                continue
+            _, callee = call_of(blk['term'])
+            is_want = bool(callee and re.search(want_rx, callee))
+            is_other = bool(callee and re.search(ANY_CMP, callee) and not is_want)
+            calls += is_want
+            other += is_other
+            for label, tgt in adj[b]:
+                if fn['blocks'][tgt]['term'] == 'return;':
+                    continue
+                if b in prune and tgt not in prune[b]:
+                    continue
+                eff = (1 if is_want else 0) + (100 if is_other else 0) if label == 'ok' else 0
+                if tgt == F:
+                    s_.add(d(b) + eff == 1)
+                    reach += 1
+                    n += 1
+                    continue
+                s_.add(d(tgt) == d(b) + eff)
+                n += 1
+                if tgt not in seen:
+                    seen.add(tgt)
+                    todo.append(tgt)
+        t0 = time.time()
+        r = s_.check()
+        res = dict(op=name, entry=entry, blocks=len(seen), edges=n, calls=calls, other_comparisons=other, z3_s=round(time.time() - t0, 3))
+        if reach == 0:
+            res.update(verdict='unknown', conflict='the arm never returns to the instruction fetch')
+        elif r == z3.sat:
+            res.update(verdict='sat')
+        elif r == z3.unsat:
+            res.update(verdict='unsat', conflict='a path of %s reaches the next instruction without exactly one call of %s (or through another comparison)' % (name, want_rx.replace('\\', '')))
+        else:
+            res.update(verdict=str(r))
+        return res
+    out = []
+    for v, rx in CMP_CALLEE.items():
+        if v in variants and str(variants.index(v)) in targets:
+            out.append(query(v, targets[str(variants.index(v))], rx, {}))
+        else:
+            out.append(dict(op=v, verdict='unknown', conflict='no dispatch target for Instruction::%s' % v))
+    if 'CompareAndPreserve' not in variants or str(variants.index('CompareAndPreserve')) not in targets:
+        out.append(dict(op='CompareAndPreserve', verdict='unknown', conflict='no dispatch target'))
+        return out
+    entry = targets[str(variants.index('CompareAndPreserve'))]
+    op_refs = set()
+    for blk in fn['blocks'].values():
+        for st in blk['stmts']:
+            m = re.match(r'(_\d+) = &\(\(\(\*_\d+\) as CompareAndPreserve\)\.0: compiler::instructions::CompareOp\);', st)
+            if m:
+                op_refs.add(m.group(1))
+    sw = None
+    for bid, blk in fn['blocks'].items():
+        m = re.match(r'switchInt\((?:move|copy) (_\d+)\) -> \[(.*)\];', blk['term'])
+        if not m or blk['cleanup']:
+            continue
+        for st in blk['stmts']:
+            x = re.match(re.escape(m.group(1)) + r' = discriminant\(\(\*(_\d+)\)\);', st)
+            if x and x.group(1) in op_refs and m.group(2).count('bb') >= 6:
+                sw = (bid, dict(p.split(': ') for p in m.group(2).split(', ')))
+    if sw is None:
+        out.append(dict(op='CompareAndPreserve', verdict='unknown', conflict='the dispatch on the CompareOp was not found'))
+        return out
+    sbid, tg = sw
+    for v, rx in CMP_CALLEE.items():
+        idx = str(cmp_variants.index(v)) if v in cmp_variants else None
+        tgt = tg.get(idx) if idx is not None else None
+        if tgt is None:
+            out.append(dict(op='CompareAndPreserve(%s)' % v, verdict='unknown', conflict='no arm for CompareOp::%s' % v))
+            continue
+        out.append(query('CompareAndPreserve_%s' % v, entry, rx, {sbid: {tgt}}))
+    return out
+
+
+def run_compare_arms(prop, tier, seed):
+    t0 = time.time()
+    ev = dict(engine='M', violations=[], known_hits=[], problems=[], coverage={})
+    try:
+        mir = dump_mir(REPO, os.path.join(BUILD, 'mir'))
+        text = function_text(mir, EVAL_IMPL)
+        if text is None:
+            raise MirError('eval_impl not found in the MIR dump')
+        results = check_compare_arms(parse_function(text), instruction_variants(REPO), compare_op_variants(REPO))
+    except MirError as e:
+        ev['problems'].append('engine M: %s' % e)
+        return ev
+    err = build_tool('render')
+    if err:
+        ev['problems'].append('engine M: render tool did not build')
+        return ev
+    import operator
+    PY = {'==': operator.eq, '!=': operator.ne, '<': operator.lt, '<=': operator.le, '>': operator.gt, '>=': operator.ge}
+    NAME = {'==': 'Eq', '!=': 'Ne', '<': 'Lt', '<=': 'Lte', '>': 'Gt', '>=': 'Gte'}
+    reqs, keys = [], []
+    vals = (0, 1, 2)
+    for op in PY:
+        # the operator alone, and in the non-final position of a chain (operands are variables: nothing is folded)
+        src = '|'.join('{{ a%d %s b%d }}' % (i, op, j) for i in vals for j in vals)
+        want = '|'.join(str(PY[op](i, j)) for i in vals for j in vals)
+        reqs.append(dict(src=src, ctx={**{'a%d' % i: i for i in vals}, **{'b%d' % i: i for i in vals}}))
+        keys.append((NAME[op], want, src))
+        src = '|'.join('{{ a%d %s b%d < c }}' % (i, op, j) for i in vals for j in vals)
+        want = '|'.join(str(PY[op](i, j) and j < 2) for i in vals for j in vals)
+        reqs.append(dict(src=src, ctx={**{'a%d' % i: i for i in vals}, **{'b%d' % i: i for i in vals}, 'c': 2}))
+        keys.append(('CompareAndPreserve_' + NAME[op], want, src))
+    inp = '\n'.join(json.dumps(q) for q in reqs) + '\n'
+    p = subprocess.run([os.path.join(BUILD, 'native', 'debug', 'render')], input=inp, stdout=subprocess.PIPE, stderr=subprocess.PIPE, text=True, timeout=120)
+    outs = [json.loads(l) for l in p.stdout.split('\n') if l.strip()]
+    bad = {}
+    for (k, want, src), o in zip(keys, outs):
+        if o.get('ok') != want:
+            bad[k] = '%s renders %r, expected %r' % (src[:60] + '...', str(o.get('ok', o))[:80], want[:80])
+    for r in results:
+        if r['verdict'] == 'sat':
+            continue
+        if r['verdict'] != 'unsat':
+            ev['problems'].append('engine M: comparison arm %s: %s %s' % (r['op'], r['verdict'], r.get('conflict') or ''))
+            continue
+        if r['op'] in bad:
+            rp = os.path.join(nativelib.replay_dir(), '%s-M-compare-%s.json' % (prop, r['op']))
+            json.dump(dict(engine='M', kind='compare', property=prop, mir_finding=r, requests=[[q, k[1]] for q, k in zip(reqs, keys) if k[0] == r['op']],
+                           how='bin/check %s --replay %s' % (prop, rp)), open(rp, 'w'), indent=1)
+            ev['violations'].append(dict(replay=rp, failed=[dict(desc='eval_impl %s: %s; natively: %s' % (r['op'], r['conflict'], bad[r['op']]), loc='minijinja/src/vm/mod.rs eval_impl (MIR)')]))
+        else:
+            ev['problems'].append('engine M: comparison arm %s: %s, but every native comparison over the grid is right' % (r['op'], r['conflict']))
+    for k, msg in bad.items():
+        if all(r['verdict'] == 'sat' for r in results if r['op'] == k):
+            ev['problems'].append('engine M: comparison %s is wrong natively (%s) although its arm calls the right comparison once' % (k, msg))
+    log('[%s] engine M (comparison arms): %s; native: %d renders, %d wrong' % (prop, ' '.join('%s=%s' % (r['op'].replace('CompareAndPreserve_', 'chain.'), r['verdict']) for r in results), len(outs), len(bad)))
+    ev['coverage'] = dict(queries=len(results), results=results, native_scenarios=len(outs), native_scenarios_failing=len(bad), function='Executor::eval_impl', check='comparison_arms')
+    ev['wall_s'] = round(time.time() - t0, 1)
+    return ev
 
 
 # ---------------------------------------------------------------------------------------------
